@@ -331,9 +331,41 @@ def c11_text(t, dump, tier):
     if dump.get('panic'):
         res.append(BFinding('C11', 'parse', t.tag, 'panic:native-parser', dump['panic']))
         return res, stats
-    if dump.get('syntax_errors'):
-        return res, stats
     prog = symgo.repo_prog()
+
+    def real_entry(c, which):
+        # the REAL entry points on the native parse (error-recovered tree + the native error list fed to whatever listener the
+        # code installs): parser.FormatPacketDsl, and cmd.Compile with the real parser.ParseFile body (file read from the model
+        # file system, listener check, visitor) instead of the parse stub
+        from .checks_b2 import install_parse_stubs
+        M = make_machine(c)
+        snap = Snapshot(prog, dump).load()
+        install_parse_stubs(M, snap, dump.get('syntax_errors'), text=text)
+        if which == 'format':
+            M.call(PARSER + '.FormatPacketDsl', [go_str(text)])
+            return 'done'
+        M.intr.pop(PARSER + '.ParseFile', None)
+        M.env['fs']['in.dsl'] = text.encode()
+        M.env['fs_readable'] = True
+        M.effects = []
+        M.stdout = []
+        outs = GoMap()
+        for g in GENS:
+            outs.set(go_str(g), go_str('/out/' + g))
+        M.call(MOD + '/cmd.Compile', [go_str('in.dsl'), outs])
+        return 'done'
+    if dump.get('syntax_errors'):
+        # syntactically invalid input (truncated, garbage, missing separators): the error paths of both entry points
+        for which, locus in (('format', 'format'), ('compile', 'cmd:compile')):
+            try:
+                _, pcs = explore([], lambda c, which=which: real_entry(c, which), 8)
+                for (kind, val), pc in pcs:
+                    stats['paths'] += 1
+                    if kind == 'panic':
+                        res.append(BFinding('C11', locus, t.tag, 'error-path:' + panic_sym(val), '%s' % val, {'text': text}))
+            except Unsupported as u:
+                stats['inconclusive'].append('%s (syntax-error path): %s' % (which, str(u)[:150]))
+        return res, stats
     consts = prog_consts(prog)
     ntok = len([o for o in dump['objs'] if o['type'].endswith('.CommonToken')])
     toktypes = token_types(dump)
@@ -430,6 +462,15 @@ def c11_text(t, dump, tier):
                 res.append(BFinding('C11', 'cmd:compile', t.tag, panic_sym(val), '%s' % val, {'text': text}))
     except Unsupported as u:
         stats['inconclusive'].append('cmd.Compile: %s' % str(u)[:150])
+    # (c3) the same command with the real parser.ParseFile body (not the parse stub)
+    try:
+        _, pcs = explore([], lambda c: real_entry(c, 'compile'), 8)
+        for (kind, val), pc in pcs:
+            stats['paths'] += 1
+            if kind == 'panic' and not any(f.locus.startswith(('visit', 'gen:', 'cmd:compile')) for f in res):
+                res.append(BFinding('C11', 'cmd:compile', t.tag, 'parsefile:' + panic_sym(val), '%s' % val, {'text': text}))
+    except Unsupported as u:
+        stats['inconclusive'].append('cmd.Compile with the real ParseFile: %s' % str(u)[:150])
     # (d) the size N of each `char[N]` / `zchar[N]` is a 64-bit solver variable: visitor and the six generators run with every
     # comparison / allocation on N decided by z3 over 0 <= N < 10^18; where the code prints N into text the path is pinned to a
     # witness value (counted: those paths cover one value of N each)
@@ -1641,6 +1682,8 @@ def family_for(prop, tier):
     fam = bfamily.family(tier)
     from . import bfamily3 as _b3
     fam = fam + _b3.round6_wellformed()
+    if prop in ('C11', 'C09'):
+        fam = fam + _b3.truncation_family(tier)
     if prop in ('C09', 'C10'):
         from . import bfamily3
         fam = fam + bfamily3.layout_family(tier)
